@@ -101,10 +101,81 @@ def gen_buzzer() -> str:
     return "\n".join(lines)
 
 
-GENERATORS = {"Host": gen_host, "Pio": gen_pio, "Buzzer": gen_buzzer}
+def probe_bindings(max_shapes=None):
+    """black-box table of what the transpiler does with every call shape Python accepts (C08):
+    [(cls, meth, params, [(npos, kws, outcome, unseen)])] — outcome 'reject' | 'ok'; `unseen` = provided parameters whose
+    value does not influence the generated C++ (measured by varying that one value)"""
+    import random
+    import bindprobe
+    import cxx
+    rng = random.Random(0)
+    out = []
+    for cls, meth, params in bindprobe.callables():
+        if (cls, meth) == ("LCD", "__init__"):
+            params = [(n, k, d and n not in ("rs", "en", "d4", "d5", "d6", "d7")) for n, k, d in params]
+        v1 = {n: bindprobe.values_for(cls, meth, n)[0] for n, _, _ in params}
+        cache = {}
+
+        def text(npos, kws, vals):
+            key = (npos, tuple(kws), tuple(sorted(vals.items())))
+            if key not in cache:
+                src = bindprobe.call_text(cls, meth, params, (None, npos, tuple(kws)), vals)
+                cpp, exc = cxx.transpile(src)
+                cache[key] = cpp if cpp is not None else "reject:" + type(exc).__name__
+            return cache[key]
+
+        pos = [n for n, k, _ in params if k == "pos"]
+        rows = []
+        seen_shapes = set()
+        for names, k, order in bindprobe.shapes(params, rng, max_perm=1):
+            kws = tuple(n for n, _, _ in params if n in order)      # signature order = canonical keyword order
+            if (k, kws) in seen_shapes:
+                continue
+            seen_shapes.add((k, kws))
+            base = text(k, kws, v1)
+            if base.startswith("reject"):
+                rows.append((k, kws, "reject", ()))
+                continue
+            unseen = []
+            given = list(pos[:k]) + list(kws)
+            for n in given:
+                cond = bindprobe.RELEVANT_IF.get((cls, meth, n))
+                if cond is not None and not any(c in given for c in cond):
+                    continue        # Python's own result does not depend on this parameter in this shape
+                if any(c in given for c in bindprobe.IRRELEVANT_IF.get((cls, meth, n), [])):
+                    continue
+                v2 = dict(v1); v2[n] = bindprobe.values_for(cls, meth, n)[1]
+                if text(k, kws, v2) == base:
+                    unseen.append(n)
+            rows.append((k, kws, "ok", tuple(unseen)))
+        out.append((cls, meth, params, rows))
+    return out
+
+
+def gen_bind() -> str:
+    lines = ["import Reduino.Lang.Bind", "namespace Reduino.Gen.Bind", "open Reduino.Lang.Bind", ""]
+    b = lambda x: "true" if x else "false"
+    names = []
+    for cls, meth, params, rows in probe_bindings():
+        ident = f"{cls}_{meth.strip('_')}"
+        names.append(ident)
+        ps = ", ".join(f"⟨{lstr(n)}, {b(k == 'kwonly')}, {b(d)}⟩" for n, k, d in params)
+        lines.append(f"def sig_{ident} : Sig := [{ps}]")
+        ents = ",\n   ".join(f"⟨⟨{k}, {llist(list(kws), per_line=20)}⟩, {b(o == 'reject')}, {llist(list(u), per_line=20)}⟩" for k, kws, o, u in rows)
+        lines.append(f"def table_{ident} : Table :=\n  [{ents}]")
+    lines.append("def names : List String := " + llist(names))
+    lines += ["", "end Reduino.Gen.Bind", ""]
+    return "\n".join(lines)
+
+
+GENERATORS = {"Host": gen_host, "Pio": gen_pio, "Buzzer": gen_buzzer, "Bind": gen_bind}
+# generators that are slow (they probe the transpiler) run only for the checks that need them, and in setup
+NEEDS = {"Bind": {"C08"}}
 
 
 def regenerate(ctx=None, only=None):
+    if ctx is not None and only is None:
+        only = [g for g in GENERATORS if g not in NEEDS or ctx.pid in NEEDS[g]]
     common.fresh_import()
     out_dir = common.LEAN / "Reduino" / "Gen"
     out_dir.mkdir(parents=True, exist_ok=True)
